@@ -30,7 +30,13 @@ def run(ctx):
         ctx.bridge('translator: truthiness tests on selection-like arguments in %d functions (%d sites)' % (_info['functions'], len(_info['sites'])), True)
     except Exception as e:   # noqa
         ctx.bridge('translator: argument-form sites extracted', False, repr(e))
-    ctx.prove(['PetlProofs.Props.C10', 'PetlProofs.Props.ArgForms'], REQUIRED + ['Petl.ArgForms.selection_arguments_not_tested_by_truthiness', 'Petl.ArgForms.selection_arguments_not_compared_by_identity'])
+    from translators import fingerprints as _fp
+    try:
+        _fpi = _fp.generate()
+        ctx.bridge('translator: fingerprints of the petl functions the hand-written models mirror (%d bodies)' % _fpi['names'], True)
+    except Exception as e:   # noqa
+        ctx.bridge('translator: source fingerprints extracted', False, repr(e))
+    ctx.prove(['PetlProofs.Props.C10', 'PetlProofs.Props.ArgForms', 'PetlProofs.Snapshot.C10'], REQUIRED + ['Petl.ArgForms.selection_arguments_not_tested_by_truthiness', 'Petl.ArgForms.selection_arguments_not_compared_by_identity'] + ['Petl.Snapshot.C10_sources_as_validated'])
     rng = ctx.rng
     n = 2500 if ctx.thorough() else 400
     jobs = []
